@@ -7,10 +7,39 @@ import Bardolph.Proofs.Loops
 Model pieces: `Gen.assembleLoop` and the prologues `Gen.calcCounter`, `Gen.calcIncr`,
 `Gen.indexVarRange`, `Gen.cycleVarRange`, `Gen.loopPost`, `Gen.counterTest` (what
 `loop_parser.py` emits), `Gen.patchBreaks` (the parser's back-patching of `break`), the VM
-(`LOOP`, `END_LOOP`, `JUMP`, the loop frame and its hidden variables) and `Sem.execLoop`.
+(`LOOP`, `END_LOOP`, `JUMP`, the loop frame and its hidden variables) and `Sem.execLoop`,
+`Sem.execWhile`, `Sem.iterNames`.  Helpers: `Proofs/Loops.lean`.
 
-The loop theorems are *body-parametric*: the body is any instruction list `b` about which only
-a behavioural contract is assumed (`BodyRun`, below).
+The loop theorems are *body-parametric*: the body is any marker-free instruction list `b` about
+which only a behavioural contract is assumed:
+
+* `BodyRun img b t u` — from `t` at the body's first instruction the VM reaches `u` just past the
+  body, still running, with the evaluation stack as it was and this loop's frame (same hidden
+  variables, same recorded height) on top.  Nothing is assumed about registers, variables,
+  lights, output or the frames below.  For loops with an index variable `v`, `BodyRunV` adds:
+  the body does not assign `v`, defines no macro `v`, keeps the scope well-formed (`ScopeOk`).
+* every loop theorem comes in a *chain form* (`…_chain`): the contract is assumed only for the
+  passes the loop actually makes (`Passes K enter post s ts s'`: `ts` lists the states in which
+  the body starts; between body runs only `enter`/`post` — explicit functions that touch `pc`,
+  `result`, the loop frame's counter and the index variable — act), and in a *universal form*
+  (`BodyOk`/`BodyOkV`: the contract from every state), in which the chain is shown to exist.
+
+Main theorems
+* 5  `C04_loop_closed`, `C04_genLoop_closed`, `C04_break_target`, `C04_inner_jumps_kept`,
+     `C04_trimEval`, `C04_break_exec`, `C04_break_innermost`
+* 1  `C04_count_loop_chain`, `C04_count_loop`, `C04_count_loop_literal`, `C04_count_loop_nat`,
+     `C04_count_loop_nonpos`; prologues `preRun_literal`, `preRun_var`, `preRun_expr`
+* 2  `C04_range_loop_chain` (bounds: literals, variables, registers), `C04_range_loop` (integers)
+* 3  `C04_series_closed_form`, `C04_series_binOp`; prologues `run_calcCounter`, `run_calcIncr`,
+     `run_cycleIncr`; `C04_interp_loop_chain`, `C04_interp_loop`, `C04_interp_last`,
+     `C04_cycle_loop_chain`, `C04_cycle_loop`, `C04_cycle_zero`
+* 4  `C04_while_loop` (against `Sem.execWhile` through `whilePasses`, `whilePasses_execWhile`)
+* 6  `C04_sortNames_sorted`, `C04_sortNames_perm`, `C04_lightNames`, `C04_groupNames`,
+     `C04_locationNames`, `C04_groupLights`, `C04_locationLights`, `C04_groupLights_nodup`,
+     `C04_iter_names_append`, `C04_iter_names_order`
+Not proved here (left to the differential check): that the discovery code `Gen.iterLights` /
+`iterSets` / `iterMembers` pushes exactly the names of `Sem.iterNames` (the `repeat all|group|
+location|in` prologues), and operands of the index-variable forms that are expressions or calls.
 -/
 namespace Bardolph
 open Vm VmSteps Gen Loops
@@ -163,45 +192,6 @@ theorem C04_break_innermost (img : Image) (P0 : Nat) (pre test bodyPre : List In
 
 /-! ## loops seen from their top -/
 
-/-- an assembled loop from its test on: `test; JUMP IF_FALSE →END_LOOP; inner; JUMP →test; END_LOOP` -/
-def loopTail (test inner : List Instr) : List Instr :=
-  test ++ [Instr.jump .ifFalse (inner.length + 2)] ++ inner ++
-    [Instr.jump .always (-((test.length + 1 + inner.length : Nat) : Int))] ++ [Instr.endLoop]
-
-theorem loopCode_eq (pre test inner : List Instr) :
-    loopCode pre test inner = [Instr.loop] ++ pre ++ loopTail test inner := by
-  simp [loopCode, loopTail]
-
-theorem loopTail_length (test inner : List Instr) :
-    (loopTail test inner).length = test.length + 1 + inner.length + 2 := by
-  simp [loopTail]; omega
-
-/-- where the pieces of a loop are, given where its test starts -/
-theorem loopTail_parts {img : Image} {top : Nat} {test b post : List Instr}
-    (h : CodeAt img top (loopTail test (b ++ post))) :
-    CodeAt img top test ∧
-    img.code[top + test.length]? = some (.jump .ifFalse ((b.length + post.length : Nat) + 2)) ∧
-    CodeAt img (top + test.length + 1) b ∧
-    CodeAt img (top + test.length + 1 + b.length) post ∧
-    img.code[top + test.length + 1 + b.length + post.length]? =
-      some (.jump .always (-((test.length + 1 + (b.length + post.length) : Nat) : Int))) ∧
-    img.code[top + test.length + 1 + b.length + post.length + 1]? = some .endLoop := by
-  unfold loopTail at h
-  have h1 := h.left.left.left.left
-  have h2 := h.left.left.left.right.head
-  have h3 := h.left.left.right
-  have h4 := h.left.right.head
-  have h5 := h.right.head
-  simp only [List.length_append, List.length_cons, List.length_nil] at h2 h3 h4 h5
-  refine ⟨h1, h2, ?_, ?_, ?_, ?_⟩
-  · have := h3.left
-    simpa [Nat.add_assoc] using this
-  · have := h3.right
-    simpa [Nat.add_assoc] using this
-  · simpa [Nat.add_assoc] using h4
-  · simpa [Nat.add_assoc] using h5
-
-
 /-- **the body contract.**  `BodyRun img b t u`: started at the first instruction of the body
 `b` in state `t`, the VM reaches `u` just past the body, still running, with the evaluation
 stack as it was and this loop's frame — its hidden variables and recorded stack height — on
@@ -314,13 +304,6 @@ theorem run_test_exit (img : Image) (s : State) (top n : Nat) (vars : List (Loop
 theorem loopPost_none_eq : loopPost none =
     [Instr.push (.loopVar .counter), .pushq (.int 1), .op .sub] ++ [Instr.pop (.loopVar .counter)] := rfl
 
-/-- the counter stays a number when decreased -/
-theorem num_dec {cv : Val} {c : Rat} {fl : Bool} (hn : Num cv c fl) :
-    ∃ cv', Val.sub cv (.int 1) = some cv' ∧ Num cv' (c - 1) fl := by
-  obtain ⟨h1, h2⟩ := num_sub hn (Num.int 1)
-  refine ⟨_, h1, ?_⟩
-  simpa using h2
-
 /-- post-step of a counted loop and the back jump: five steps from the end of the body to the
 loop top, the counter one less -/
 theorem run_post_none (img : Image) (u : State) (pc top : Nat) (vars : List (LoopVar × Val)) (h : Nat)
@@ -346,16 +329,6 @@ theorem run_post_none (img : Image) (u : State) (pc top : Nat) (vars : List (Loo
   apply State.ext' <;> simp [countPost, hst, mapTop, decCounter, hsub]
   omega
 
-
-theorem passes_zero_iff {c : Rat} : passes c = 0 ↔ c ≤ 0 := by
-  constructor
-  · intro h
-    apply Classical.byContradiction
-    intro hc
-    have : 0 < c := by grind
-    rw [passes_pos this] at h
-    omega
-  · exact passes_nonpos
 
 /-- **counted loop, from its top.**  `ts` are the body-start states of the passes made. -/
 theorem counted_loop_chain (img : Image) (top : Nat) (b : List Instr)
@@ -499,6 +472,11 @@ theorem assembled_counted (pre b post : List Instr) :
     unG (assembleLoop pre counterTest [] (ins b) post) = loopCode pre counterTest (b ++ post) := by
   rw [assembleLoop_ins, unG_ins]; simp
 
+theorem assembled_length (pre b post : List Instr) :
+    (unG (assembleLoop pre counterTest [] (ins b) post)).length = pre.length + b.length + post.length + 8 := by
+  rw [assembled_counted, loopCode_eq]
+  simp [loopTail, counterTest, testOp]; omega
+
 /-- **count_loop.**  The code of `repeat n` with a body that satisfies the body contract from
 every state (`BodyOk`): started at its `LOOP`, the VM makes exactly `passes n` passes — none
 when `n ≤ 0`, `⌈n⌉` otherwise — and ends just past `END_LOOP`, loop frame popped, evaluation
@@ -571,6 +549,122 @@ theorem preRun_var (img : Image) (s0 : State) (pc h : Nat) (rest : List Frame) (
     simp only [List.cons.injEq, Frame.loop.injEq, true_and] at hst'
     obtain ⟨rfl, rfl⟩ := hst'
     exact ⟨_, _, fl, rfl, by simpa [getLV_cons] using hv⟩
+
+
+/-! ### what the loop's own code leaves alone -/
+
+theorem Passes.mono {K K' : State → State → Prop} {enter post : State → State}
+    (h : ∀ t u, K t u → K' t u) {s s' : State} {ts : List State}
+    (hp : Passes K enter post s ts s') : Passes K' enter post s ts s' := by
+  induction hp with
+  | done s => exact .done s
+  | pass hk _ ih => exact .pass (h _ _ hk) ih
+
+theorem mapTop_tail (f : List (LoopVar × Val) → List (LoopVar × Val)) (st : List Frame) :
+    (mapTop f st).tail = st.tail := by
+  cases st with
+  | nil => rfl
+  | cons fr rest => cases fr <;> rfl
+
+/-- between the body runs a counted loop touches only `pc`, `result` and its own frame's
+counter: in particular the trace, the lights, the variables and every other register are
+what the body runs made them -/
+theorem enterBody_fields (p : Nat) (s : State) :
+    (enterBody p s).trace = s.trace ∧ (enterBody p s).lights = s.lights ∧
+    (enterBody p s).globals = s.globals ∧ (enterBody p s).stack = s.stack ∧
+    (enterBody p s).eval = s.eval ∧ (enterBody p s).unnamed = s.unnamed ∧
+    ∀ r, r ≠ .result → (enterBody p s).regs r = s.regs r :=
+  ⟨rfl, rfl, rfl, rfl, rfl, rfl, fun r hr => by simp [enterBody, hr]⟩
+
+theorem countPost_fields (p : Nat) (u : State) :
+    (countPost p u).trace = u.trace ∧ (countPost p u).lights = u.lights ∧
+    (countPost p u).globals = u.globals ∧ (countPost p u).stack.tail = u.stack.tail ∧
+    (countPost p u).eval = u.eval ∧ (countPost p u).unnamed = u.unnamed ∧
+    (countPost p u).regs = u.regs :=
+  ⟨rfl, rfl, rfl, mapTop_tail _ _, rfl, rfl, rfl⟩
+
+theorem exitLoop_fields (p : Nat) (s : State) :
+    (exitLoop p s).trace = s.trace ∧ (exitLoop p s).lights = s.lights ∧
+    (exitLoop p s).globals = s.globals ∧ (exitLoop p s).stack = s.stack.tail ∧
+    (exitLoop p s).eval = s.eval ∧ (exitLoop p s).unnamed = s.unnamed ∧
+    ∀ r, r ≠ .result → (exitLoop p s).regs r = s.regs r :=
+  ⟨rfl, rfl, rfl, rfl, rfl, rfl, fun r hr => by simp [exitLoop, hr]⟩
+
+/-- a counted loop whose body leaves the frames below the loop frame as they are ends with the
+stack it started with -/
+theorem Passes.tail_stack {K : State → State → Prop} (p q : Nat)
+    (hK : ∀ t u, K t u → u.stack.tail = t.stack.tail) {s s' : State} {ts : List State}
+    (hp : Passes K (enterBody p) (countPost q) s ts s') : s'.stack.tail = s.stack.tail := by
+  induction hp with
+  | done s => rfl
+  | @pass s u s' ts hk _ ih =>
+    rw [ih, (countPost_fields q u).2.2.2.1, hK _ _ hk]; rfl
+
+
+theorem count_chain_exists' (img : Image) (top : Nat) (b : List Instr) (K : State → State → Prop)
+    (hKB : ∀ t u, K t u → BodyRun img b t u) (hB : CodeAt img (top + 5) b)
+    (hok : ∀ t : State, t.status = .running → (∃ pc : Nat, t.pc = (pc : Int) ∧ CodeAt img pc b) →
+      (∃ vars h rest, t.stack = .loop vars h :: rest) → ∃ u, K t u) :
+    ∀ (p : Nat) (s : State) (vars : List (LoopVar × Val)) (h : Nat) (rest : List Frame),
+      s.status = .running → s.stack = .loop vars h :: rest →
+      ∃ ts s', Passes K (enterBody (top + 5)) (countPost top) s ts s' ∧ ts.length = p := by
+  intro p
+  induction p with
+  | zero => intro s vars h rest _ _; exact ⟨[], s, .done s, rfl⟩
+  | succ p ih =>
+    intro s vars h rest hs hst
+    obtain ⟨u, hu⟩ := hok (enterBody (top + 5) s) (by simpa [enterBody] using hs)
+      ⟨top + 5, by simp [enterBody], hB⟩ ⟨vars, h, rest, by simpa [enterBody] using hst⟩
+    have hb := hKB _ _ hu
+    obtain ⟨rest', hust⟩ := hb.frame vars h rest (by simpa [enterBody] using hst)
+    obtain ⟨ts, s', hp, hl⟩ := ih (countPost top u) (decCounter vars) h rest'
+      (by simpa [countPost] using hb.running) (by simp [countPost, hust, mapTop])
+    exact ⟨_ :: ts, s', .pass hu hp, by simp [hl]⟩
+
+/-- **count_loop, literal count, frames below untouched.**  `repeat <number>` around a body that
+from every state runs to its end as `BodyRun` says and leaves the frames below the loop frame as
+they are: exactly `passes n` body runs (`n` itself for a natural number), then control is just
+past `END_LOOP` with the stack and the evaluation stack exactly as before the loop. -/
+theorem C04_count_loop_literal (img : Image) (P0 : Nat) (b : List Instr) (nv : Val) (n : Rat) (fl : Bool)
+    (hnv : Num nv n fl)
+    (hc : CodeAt img P0 (unG (assembleLoop (genRv (.lit nv) (.to counter)) counterTest [] (ins b)
+      (loopPost none))))
+    (s : State) (hs : s.status = .running) (hpc : s.pc = (P0 : Int))
+    (hok : ∀ t : State, t.status = .running → (∃ pc : Nat, t.pc = (pc : Int) ∧ CodeAt img pc b) →
+      (∃ vars h rest, t.stack = .loop vars h :: rest) →
+      ∃ u, BodyRun img b t u ∧ u.stack.tail = t.stack.tail) :
+    ∃ (ts : List State) (s' : State) (k : Nat),
+      ts.length = passes n ∧ run img k s = exitLoop (P0 + (b.length + 13)) s' ∧
+      (exitLoop (P0 + (b.length + 13)) s').stack = s.stack ∧
+      (exitLoop (P0 + (b.length + 13)) s').eval = s.eval ∧
+      ∃ s1, Passes (fun t u => BodyRun img b t u ∧ u.stack.tail = t.stack.tail)
+        (enterBody (P0 + 1 + 1 + 5)) (countPost (P0 + 1 + 1)) s1 ts s' := by
+  have hlen : (unG (assembleLoop (genRv (.lit nv) (.to counter)) counterTest [] (ins b)
+      (loopPost none))).length = b.length + 13 := by
+    rw [assembled_length]; simp [genRv, loopPost]; omega
+  have hc0 := hc
+  rw [assembled_counted] at hc
+  obtain ⟨_, hPre, hT, _⟩ := loopCode_parts hc
+  have hpl : (genRv (.lit nv) (.to counter)).length = 1 := by simp [genRv]
+  rw [hpl] at hT
+  let s1 : State :=
+    { afterLoop s with pc := (afterLoop s).pc + 1,
+                       stack := .loop [(.counter, nv)] s.eval.length :: s.stack }
+  have hpre : PreRun img (genRv (.lit nv) (.to counter)) (afterLoop s) s1 n :=
+    preRun_literal img (afterLoop s) (P0 + 1) s.eval.length s.stack nv n fl (by exact hs)
+    (by simp [afterLoop, hpc]) hPre rfl hnv
+  have hB : CodeAt img (P0 + 1 + 1 + 5) b := (loopTail_parts hT).2.2.1
+  obtain ⟨ts, s', hp, hl⟩ := count_chain_exists' img (P0 + 1 + 1) b
+    (fun t u => BodyRun img b t u ∧ u.stack.tail = t.stack.tail) (fun _ _ h => h.1) hB hok (passes n) s1
+    [(.counter, nv)] s.eval.length s.stack (by exact hs) rfl
+  have hp' := Passes.mono (K' := BodyRun img b) (fun _ _ h => h.1) hp
+  obtain ⟨⟨k, hk⟩, hev, _⟩ := C04_count_loop_chain img P0 _ b hc s s1 n hs hpc hpre ts s'
+    (by rw [hpl]; exact hp') hl
+  rw [assembled_counted] at hlen
+  rw [hlen] at hk hev
+  refine ⟨ts, s', k, hl, hk, ?_, hev, s1, hp⟩
+  rw [(exitLoop_fields _ s').2.2.2.1, Passes.tail_stack _ _ (fun _ _ h => h.2) hp]
+  rfl
 
 
 section ExprCount
@@ -689,6 +783,22 @@ theorem run_post_some (img : Image) (u : State) (pc top : Nat) (v : String)
   exact run_trans hrun1 (run_trans hrun2 hrun3)
 
 
+theorem putVariable_trace (s : State) (n : String) (v : Val) :
+    (s.putVariable n v).trace = s.trace ∧ (s.putVariable n v).lights = s.lights ∧
+    (s.putVariable n v).regs = s.regs ∧ (s.putVariable n v).unnamed = s.unnamed := by
+  unfold State.putVariable
+  repeat' split
+  all_goals exact ⟨rfl, rfl, rfl, rfl⟩
+
+theorem varPost_fields (p : Nat) (v : String) (u : State) :
+    (varPost p v u).trace = u.trace ∧ (varPost p v u).lights = u.lights ∧
+    (varPost p v u).eval = u.eval ∧ (varPost p v u).unnamed = u.unnamed ∧
+    (varPost p v u).regs = u.regs := by
+  have h := putVariable_trace ({ u with stack := mapTop decCounter u.stack } : State) v
+    (addVal (u.getVariable v) (u.getLoopVar .incr))
+  exact ⟨h.1, h.2.1, putVariable_eval _ _ _, h.2.2.2, h.2.2.1⟩
+
+
 /-- **the body contract of a loop with index variable `v`**: `BodyRun`, and the body does not
 assign `v` (what `v` denotes is the same after the body), defines no macro called `v`, and
 leaves the frames below the loop frame in a shape in which names resolve (`ScopeOk`) -/
@@ -778,9 +888,6 @@ theorem counted_var_loop_chain (img : Image) (top : Nat) (b : List Instr) (v : S
 
 /-! ## values of the index variable -/
 
-theorem natCast_succ_rat (k : Nat) : ((k + 1 : Nat) : Rat) = (k : Rat) + 1 := by
-  simp [Rat.natCast_add]
-
 /-- **series_closed_form.**  Adding a numeric increment `k` times to a numeric start, one VM
 addition (`Vm.binOp .add`, i.e. `Val.add`) at a time: the value is `x + k·d` exactly, an int as
 long as everything added so far is an int, a float from the first float on. -/
@@ -816,52 +923,6 @@ theorem C04_series_binOp (xv iv : Val) (x d : Rat) (fx fd : Bool) (hx : Num xv x
     simp [binOp, addN, addVal, this]
 
 /-! ## prologues -/
-
-theorem _root_.Bardolph.VmSteps.CodeAt.slice {img : Image} {pc : Nat} {code : List Instr} (h : CodeAt img pc code)
-    (i n : Nat) : CodeAt img (pc + i) ((code.drop i).take n) := by
-  intro k hk
-  simp only [List.length_take, List.length_drop] at hk
-  have := h (i + k) (by omega)
-  rw [Nat.add_assoc, this]
-  simp [List.getElem_take, List.getElem_drop]
-
-theorem _root_.Bardolph.VmSteps.CodeAt.get {img : Image} {pc : Nat} {code : List Instr} (h : CodeAt img pc code)
-    (i : Nat) (hi : i < code.length) : img.code[pc + i]? = some code[i] := h i hi
-
-/-- `MOVEQ v <loop variable>` -/
-theorem run_moveq_lv (img : Image) (s : State) (pc : Nat) (l : LoopVar) (v : Val)
-    (vars : List (LoopVar × Val)) (h : Nat) (rest : List Frame)
-    (hs : s.status = .running) (hpc : s.pc = (pc : Int))
-    (hi : img.code[pc]? = some (.moveq v (.loopVar l))) (hst : s.stack = .loop vars h :: rest) :
-    run img 1 s = { s with pc := (pc : Int) + 1, stack := .loop (setLV vars l v) h :: rest } := by
-  have hput : s.put (.loopVar l) v = { s with stack := .loop (setLV vars l v) h :: rest } := by
-    simp only [State.put, putLoopVar_eq hst]
-  rw [run_one _ _ hs, step_moveq img s pc v (.loopVar l) hs hpc hi (by simp) (by rw [hput]; exact hs), hput]
-  simp [hpc]
-
-/-- `MOVE <loop variable> <variable>` -/
-theorem run_move_lv_var (img : Image) (s : State) (pc : Nat) (l : LoopVar) (n : String)
-    (vars : List (LoopVar × Val)) (h : Nat) (rest : List Frame)
-    (hs : s.status = .running) (hpc : s.pc = (pc : Int))
-    (hi : img.code[pc]? = some (.move (.loopVar l) (.var n))) (hst : s.stack = .loop vars h :: rest) :
-    run img 1 s = { s.putVariable n (getLV vars l) with pc := (pc : Int) + 1 } := by
-  rw [run_one _ _ hs, step_move img s pc _ _ hs hpc hi (by simpa [State.put, putVariable_status] using hs)]
-  simp [State.put, State.read, getLoopVar_eq hst, putVariable_pc, hpc]
-
-theorem run_jump_always (img : Image) (s : State) (pc : Nat) (off : Int)
-    (hs : s.status = .running) (hpc : s.pc = (pc : Int))
-    (hi : img.code[pc]? = some (.jump .always off)) :
-    run img 1 s = { s with pc := (pc : Int) + off } := by
-  rw [run_one _ _ hs, step_jump_always img s pc off hs hpc hi]
-
-theorem run_jump_ifFalse (img : Image) (s : State) (pc : Nat) (off : Int)
-    (hs : s.status = .running) (hpc : s.pc = (pc : Int))
-    (hi : img.code[pc]? = some (.jump .ifFalse off)) :
-    run img 1 s = { s with pc := if (s.regs .result).truthy then (pc : Int) + 1 else (pc : Int) + off } := by
-  rw [run_one _ _ hs, step_jump_ifFalse img s pc off hs hpc hi]
-
-theorem Num.cast {v : Val} {q q' : Rat} {f f' : Bool} (h : Num v q f) (hq : q = q') (hf : f = f') :
-    Num v q' f' := by subst hq; subst hf; exact h
 
 /-- **calc_counter.**  The prologue of `repeat with v from a to b`: from numbers `x` in `first`
 and `y` in `last`, the hidden counter becomes `|y − x| + 1` and `incr` becomes `+1` or `−1`
@@ -984,21 +1045,6 @@ theorem run_calcCounter (img : Image) (s : State) (pc : Nat) (vars : List (LoopV
 
 /-! ## `repeat with v from a to b` -/
 
-theorem loopCode_parts {img : Image} {P0 : Nat} {pre test inner : List Instr}
-    (hc : CodeAt img P0 (loopCode pre test inner)) :
-    img.code[P0]? = some .loop ∧ CodeAt img (P0 + 1) pre ∧
-    CodeAt img (P0 + 1 + pre.length) (loopTail test inner) ∧
-    (loopCode pre test inner).length = 1 + pre.length + (loopTail test inner).length := by
-  rw [loopCode_eq] at hc
-  refine ⟨?_, ?_, ?_, ?_⟩
-  · have := hc.left.left.head; simpa using this
-  · have := hc.left.right; simpa using this
-  · have := hc.right
-    have e : P0 + ([Instr.loop] ++ pre).length = P0 + 1 + pre.length := by simp; omega
-    rw [e] at this
-    exact this
-  · rw [loopCode_eq]; simp; omega
-
 theorem run_loop_instr (img : Image) (s : State) (P0 : Nat) (hs : s.status = .running)
     (hpc : s.pc = (P0 : Int)) (hL : img.code[P0]? = some .loop) : run img 1 s = afterLoop s := by
   rw [run_one _ _ hs, step_loop img s P0 hs hpc hL]
@@ -1042,51 +1088,6 @@ theorem indexVarRange_lit_with (v : String) (av bv : Val) :
       [Instr.moveq av (.loopVar .first), .moveq bv (.loopVar .last),
        .move (.loopVar .first) (.var v)] ++ calcCounter := by
   simp [indexVarRange, genRv]
-
-/-- `MOVE src <loop variable>` -/
-theorem run_move_lv (img : Image) (s : State) (pc : Nat) (src : Src) (l : LoopVar)
-    (vars : List (LoopVar × Val)) (h : Nat) (rest : List Frame)
-    (hs : s.status = .running) (hpc : s.pc = (pc : Int))
-    (hi : img.code[pc]? = some (.move src (.loopVar l))) (hst : s.stack = .loop vars h :: rest) :
-    run img 1 s = { s with pc := (pc : Int) + 1, stack := .loop (setLV vars l (s.read src)) h :: rest } := by
-  have hput : s.put (.loopVar l) (s.read src) =
-      { s with stack := .loop (setLV vars l (s.read src)) h :: rest } := by
-    simp only [State.put, putLoopVar_eq hst]
-  rw [run_one _ _ hs, step_move img s pc src (.loopVar l) hs hpc hi (by rw [hput]; exact hs), hput]
-  simp [hpc]
-
-/-- **operands that need no code of their own** — a literal, a variable, a register
-(`SimpleArg`): `genRv a → <loop variable>` is one instruction that stores what `a` denotes in
-the current state (`s.read a.src`) -/
-theorem run_simple_lv (img : Image) (s : State) (pc : Nat) (a : Rv) (ha : SimpleArg a) (l : LoopVar)
-    (vars : List (LoopVar × Val)) (h : Nat) (rest : List Frame)
-    (hs : s.status = .running) (hpc : s.pc = (pc : Int))
-    (hc : CodeAt img pc (genRv a (.to (.loopVar l)))) (hst : s.stack = .loop vars h :: rest) :
-    (genRv a (.to (.loopVar l))).length = 1 ∧
-    run img 1 s =
-      { s with pc := (pc : Int) + 1, stack := .loop (setLV vars l (s.read a.src)) h :: rest } := by
-  cases ha with
-  | lit v =>
-    have hc' : CodeAt img pc [Instr.moveq v (.loopVar l)] := by simpa [genRv] using hc
-    exact ⟨by simp [genRv], run_moveq_lv img s pc l v vars h rest hs hpc hc'.head hst⟩
-  | var n =>
-    have hc' : CodeAt img pc [Instr.move (.var n) (.loopVar l)] := by simpa [genRv] using hc
-    exact ⟨by simp [genRv], run_move_lv img s pc (.var n) l vars h rest hs hpc hc'.head hst⟩
-  | reg r =>
-    have hc' : CodeAt img pc [Instr.move (.reg r) (.loopVar l)] := by simpa [genRv] using hc
-    exact ⟨by simp [genRv], run_move_lv img s pc (.reg r) l vars h rest hs hpc hc'.head hst⟩
-
-/-- what a simple operand denotes does not depend on `pc` or the innermost loop frame's hidden
-variables -/
-theorem read_simple_retop (a : Rv) (ha : SimpleArg a) (s t : State)
-    (vars vars' : List (LoopVar × Val)) (h h' : Nat) (rest : List Frame)
-    (hs : s.stack = .loop vars h :: rest) (ht : t.stack = .loop vars' h' :: rest)
-    (hc : t.constants = s.constants) (hg : t.globals = s.globals) (hr : t.regs = s.regs) :
-    t.read a.src = s.read a.src := by
-  cases ha with
-  | lit v => rfl
-  | var n => exact getVariable_retop s t vars vars' h h' rest n hs ht hc hg
-  | reg r => simp [Rv.src, State.read, hr]
 
 theorem read_simple_afterLoop (a : Rv) (ha : SimpleArg a) (s : State) :
     (afterLoop s).read a.src = s.read a.src := by
@@ -1139,10 +1140,6 @@ theorem run_bounds (img : Image) (s0 : State) (pc h : Nat) (rest : List Frame) (
     repeat' split
     all_goals rfl
 
-theorem genRv_simple_length (a : Rv) (ha : SimpleArg a) (l : LoopVar) :
-    (genRv a (.to (.loopVar l))).length = 1 := by
-  cases ha <;> simp [genRv]
-
 theorem indexVarRange_length (v : String) (a b : Rv) (ha : SimpleArg a) (hb : SimpleArg b) (w : Bool) :
     (indexVarRange v a b w).length = if w then 23 else 18 := by
   unfold indexVarRange
@@ -1184,11 +1181,6 @@ theorem range_prologue (img : Image) (s0 : State) (pc h : Nat) (rest : List Fram
     exact getVariable_retop s3 _ _ vars' h h rest1 v hst3 rfl rfl rfl
   · rw [hst3] at hsc3; exact hsc3.retop
 
-
-theorem assembled_length (pre b post : List Instr) :
-    (unG (assembleLoop pre counterTest [] (ins b) post)).length = pre.length + b.length + post.length + 8 := by
-  rw [assembled_counted, loopCode_eq]
-  simp [loopTail, counterTest, testOp]; omega
 
 /-- the universal form of `BodyRunV` -/
 def BodyOkV (img : Image) (b : List Instr) (v : String) : Prop :=
@@ -1277,11 +1269,6 @@ theorem C04_range_loop_chain (img : Image) (P0 : Nat) (b : List Instr) (v : Stri
   rw [hlenAll, hgv, hinc] at this
   exact this
 
-theorem add_int_int (i j : Int) : Val.add (.int i) (.int j) = some (.int (i + j)) := by
-  have := (num_add (Num.int i) (Num.int j)).1
-  rw [this]
-  simp [Val.mkNum, ← Rat.intCast_add, Rat.num_intCast]
-
 /-- integers stay integers: `a`, then `a + d`, `a + 2d`, … -/
 theorem addN_int (a d : Int) (k : Nat) : addN (.int a) (.int d) k = .int (a + k * d) := by
   induction k with
@@ -1348,31 +1335,6 @@ theorem C04_range_loop (img : Image) (P0 : Nat) (b : List Instr) (v : String) (a
 
 
 /-! ## `repeat n with v from a to b`: the increment -/
-
-theorem pfRun_append (rd : Src → Val) (a b : List Instr) (stk : List Val) :
-    pfRun rd (a ++ b) stk = (pfRun rd a stk).bind (pfRun rd b) := by
-  induction a generalizing stk with
-  | nil => simp [pfRun]
-  | cons i is ih =>
-    simp only [List.cons_append, pfRun]
-    cases pfStep rd stk i with
-    | none => simp
-    | some s1 => simp [ih]
-
-/-- a postfix run ended by `POP <loop variable>`, whatever it leaves below the value -/
-theorem run_pf_lv' (img : Image) (pf : List Instr) (l : LoopVar) (s : State) (pc : Nat) (r : Val)
-    (stk' : List Val) (vars : List (LoopVar × Val)) (h : Nat) (rest : List Frame)
-    (hs : s.status = .running) (hpc : s.pc = (pc : Int))
-    (hc : CodeAt img pc (pf ++ [.pop (.loopVar l)])) (hst : s.stack = .loop vars h :: rest)
-    (hr : pfRun s.read pf s.eval = some (r :: stk')) :
-    run img (pf.length + 1) s =
-      { s with pc := (pc : Int) + pf.length + 1, eval := stk',
-               stack := .loop (setLV vars l r) h :: rest } := by
-  rw [run_add, run_pf img s.read pf s pc _ hs hpc hc.left (fun _ => rfl) hr, run_one _ _ (by exact hs),
-    step_pop img _ (pc + pf.length) (.loopVar l) r stk' (by exact hs) (by simp) hc.right.head (by rfl)]
-  have hst' : ({ s with pc := (pc : Int) + pf.length, eval := stk' } : State).stack = .loop vars h :: rest := hst
-  simp only [State.put, putLoopVar_eq hst']
-  simp [hs]
 
 theorem calcIncr_eq : calcIncr =
     [Instr.push (.loopVar .counter), .pushq (.int 1), .op .noteq, .pop (.reg .result),
@@ -1479,11 +1441,6 @@ def cycleTail : List Instr :=
   testOp .eq (.push (.reg .unitMode)) (.pushq (.mode .raw)) ++
   [.jump .ifFalse 3, .pushq (.int 65536), .jump .always 2, .pushq (.int 360),
    .push (.loopVar .counter), .op .div, .pop (.loopVar .incr)]
-
-theorem run_pushq (img : Image) (s : State) (pc : Nat) (v : Val)
-    (hs : s.status = .running) (hpc : s.pc = (pc : Int)) (hi : img.code[pc]? = some (.pushq v)) :
-    run img 1 s = { s with pc := (pc : Int) + 1, eval := v :: s.eval } := by
-  rw [run_one _ _ hs, step_pushq img s pc v hs hpc hi]
 
 /-- a full turn in the current units -/
 def turnOf (m : UnitMode) : Int := if m = .raw then 65536 else 360
@@ -2346,68 +2303,6 @@ end WhileLoop
 
 /-! ## 6. names in order -/
 
-/-- one insertion step of `Vm.sortNames` -/
-def insName (x : String) (acc : List String) : List String :=
-  acc.takeWhile (· < x) ++ [x] ++ acc.dropWhile (· < x)
-
-theorem insName_cons (x a : String) (acc : List String) :
-    insName x (a :: acc) = if a < x then a :: insName x acc else x :: a :: acc := by
-  unfold insName
-  by_cases h : a < x
-  · simp [h]
-  · simp [h]
-
-theorem insName_perm (x : String) (acc : List String) : (insName x acc).Perm (x :: acc) := by
-  unfold insName
-  have h := List.takeWhile_append_dropWhile (p := (· < x)) (l := acc)
-  calc acc.takeWhile (· < x) ++ [x] ++ acc.dropWhile (· < x)
-      = acc.takeWhile (· < x) ++ x :: acc.dropWhile (· < x) := by simp
-    _ |>.Perm (x :: (acc.takeWhile (· < x) ++ acc.dropWhile (· < x))) := List.perm_middle
-    _ = x :: acc := by rw [h]
-
-theorem mem_insName (x y : String) (acc : List String) : y ∈ insName x acc ↔ y = x ∨ y ∈ acc := by
-  rw [(insName_perm x acc).mem_iff]; simp
-
-theorem insName_sorted (x : String) (acc : List String) (h : acc.Pairwise (· ≤ ·)) :
-    (insName x acc).Pairwise (· ≤ ·) := by
-  induction acc with
-  | nil => simp [insName]
-  | cons a acc ih =>
-    rw [insName_cons]
-    rw [List.pairwise_cons] at h
-    split
-    · rename_i hlt
-      rw [List.pairwise_cons]
-      refine ⟨?_, ih h.2⟩
-      intro y hy
-      rcases (mem_insName x y acc).1 hy with rfl | hy
-      · exact fun hgt => String.lt_asymm hlt hgt
-      · exact h.1 y hy
-    · rename_i hge
-      rw [List.pairwise_cons, List.pairwise_cons]
-      refine ⟨?_, h.1, h.2⟩
-      intro y hy
-      rcases List.mem_cons.1 hy with rfl | hy
-      · exact hge
-      · exact String.le_trans hge (h.1 y hy)
-
-theorem sortNames_eq (xs : List String) : sortNames xs = xs.foldl (fun acc x => insName x acc) [] := rfl
-
-theorem foldl_ins_sorted (xs acc : List String) (h : acc.Pairwise (· ≤ ·)) :
-    (xs.foldl (fun acc x => insName x acc) acc).Pairwise (· ≤ ·) := by
-  induction xs generalizing acc with
-  | nil => exact h
-  | cons x xs ih => exact ih _ (insName_sorted x acc h)
-
-theorem foldl_ins_perm (xs acc : List String) :
-    (xs.foldl (fun acc x => insName x acc) acc).Perm (xs ++ acc) := by
-  induction xs generalizing acc with
-  | nil => exact .refl _
-  | cons x xs ih =>
-    refine (ih (insName x acc)).trans ?_
-    refine ((insName_perm x acc).append_left xs).trans ?_
-    simp
-
 /-- **`sortNames` sorts**: the result is in ascending order (Python's code-point order on
 strings, `String`'s `<`) … -/
 theorem C04_sortNames_sorted (xs : List String) : (sortNames xs).Pairwise (· ≤ ·) :=
@@ -2418,54 +2313,6 @@ theorem C04_sortNames_perm (xs : List String) : (sortNames xs).Perm xs := by
   have := foldl_ins_perm xs []
   rw [List.append_nil] at this
   exact this
-
-theorem mem_dedupSorted (xs : List String) (y : String) : y ∈ dedupSorted xs ↔ y ∈ xs := by
-  induction xs using dedupSorted.induct with
-  | case1 => simp [dedupSorted]
-  | case2 a => simp [dedupSorted]
-  | case3 a b rest hab ih =>
-    simp only [dedupSorted, hab, if_true, ih]
-    have : a = b := by simpa using hab
-    subst this; simp
-  | case4 a b rest hab ih =>
-    simp only [dedupSorted, hab, List.mem_cons, Bool.false_eq_true, if_false]
-    rw [ih]; simp
-
-theorem dedupSorted_strict (xs : List String) (h : xs.Pairwise (· ≤ ·)) :
-    (dedupSorted xs).Pairwise (· < ·) := by
-  induction xs using dedupSorted.induct with
-  | case1 => simp [dedupSorted]
-  | case2 a => simp [dedupSorted]
-  | case3 a b rest hab ih =>
-    simp only [dedupSorted, hab, if_true]
-    exact ih (List.pairwise_cons.1 h).2
-  | case4 a b rest hab ih =>
-    simp only [dedupSorted, hab]
-    rw [List.pairwise_cons] at h
-    simp only [Bool.false_eq_true, if_false]
-    rw [List.pairwise_cons]
-    refine ⟨?_, ih h.2⟩
-    intro y hy
-    have hy' := (mem_dedupSorted (b :: rest) y).1 hy
-    have hle : a ≤ y := h.1 y hy'
-    have hne : a ≠ b := by simpa using hab
-    -- a ≤ b ≤ y and a ≠ b
-    have hab' : a ≤ b := h.1 b (by simp)
-    have hlt : a < b := by
-      apply Classical.byContradiction
-      intro hn
-      exact hne (String.le_antisymm hab' (String.not_lt.1 hn))
-    rcases List.mem_cons.1 hy' with rfl | hyr
-    · exact hlt
-    · have hby : b ≤ y := (List.pairwise_cons.1 h.2).1 y hyr
-      apply Classical.byContradiction
-      intro hn
-      have : y ≤ a := String.not_lt.1 hn
-      exact (String.le_trans hby this) hlt
-
-
-theorem strict_nodup (xs : List String) (h : xs.Pairwise (· < ·)) : xs.Nodup :=
-  h.imp fun hlt => String.ne_of_lt hlt
 
 /-- `lightNames` (what `repeat all` and `all` in a list visit): strictly ascending — so every
 name exactly once — and exactly the names of the lights there are -/
